@@ -199,6 +199,11 @@ func (st *State) setRegionArr(t types.Type, reg, arr *Term) {
 // ---------- struct objects ----------
 
 func (e *Engine) subRef(st types.Type, field int, ref *Term) *Term {
+	if field == 0 {
+		// a struct-typed first field lives at the address of the enclosing object (Go layout);
+		// heap maps are per struct type, so sharing the identity is harmless and exact
+		return ref
+	}
 	return App(fmt.Sprintf("sub_%s_%d", structKey(st), field), e.ar.I(), ref)
 }
 
